@@ -302,7 +302,24 @@ fn t_stream(dom: &ODom) -> Vec<odom::VChar> {
         .collect()
 }
 
-/// Visible text of each table cell (its own text, excluding nested tables).
+/// Is a loss (characters `missing`, nothing extra) fully accounted for by table cells whose
+/// whole text has no display width (e.g. a lone combining mark)?  Such a cell gives its
+/// column no width and is skipped: a recorded finding with its own signature.
+fn explained_by_zero_width_cells(dom: &ODom, missing: &str) -> bool {
+    if missing.is_empty() || missing.chars().any(|c| cw(c) > 0) {
+        return false;
+    }
+    let mut avail = multiset("");
+    for cell in cell_texts(dom) {
+        if !cell.is_empty() && cell.chars().all(|c| cw(c) == 0) {
+            for (c, n) in multiset(&cell) {
+                *avail.entry(c).or_insert(0) += n;
+            }
+        }
+    }
+    multiset(missing).into_iter().all(|(c, n)| avail.get(&c).copied().unwrap_or(0) >= n)
+}
+
 fn cell_texts(dom: &ODom) -> Vec<String> {
     let mut cells = Vec::new();
     for (id, n) in dom.nodes.iter().enumerate() {
@@ -444,6 +461,18 @@ pub fn check_preserved(
     } else {
         out.inc("compared_multiset");
         let (missing, extra) = multiset_diff(&v_t, &o_t);
+        if extra.is_empty() && explained_by_zero_width_cells(dom, &missing) {
+            out.inc("zero_width_only_cells_not_drawn");
+            if !missing.is_empty() {
+                // a recorded finding with its own exact signature: any other loss keeps its structural class
+                out.violate(
+                    "text-lost:zero-width-only-cell",
+                    format!("the text of a table cell made only of zero-width characters ({:?}) is missing: its column is given width 0 and the cell is skipped", truncate(&missing, 60)),
+                    witness(input, w, cfg, json!({"missing": truncate(&missing, 60), "extra": "", "output": truncate(output, 1500), "mutated": mutated})),
+                );
+            }
+            return;
+        }
         if !missing.is_empty() || !extra.is_empty() {
             let class = if !missing.is_empty() && extra.is_empty() {
                 format!("lost:{}", classify_loss(dom, &t_stream(dom), &v_t, &o_t, false))
